@@ -67,6 +67,7 @@ def run_unit(unit, keep=False, rlimit=None, repo=REPO, extra_verus_args="", rend
         gmap = json.load(open(mp))
         res["rewrites"] = gmap["rewrites"]
         res["lost_hints"] = gmap["lost_hints"]
+        res["lost_closures"] = gmap.get("lost_closures", [])
         res["items"] = gmap["functions"]
         jout = os.path.join(ws, "vx-verus.json")
         env = dict(os.environ)
@@ -132,7 +133,10 @@ def run_unit(unit, keep=False, rlimit=None, repo=REPO, extra_verus_args="", rend
                 fb.append(f)
         for f in fb:
             name = f["function"]
-            twin = "__vxtwin_" in name
+            segs = name.split("::")
+            if any("__vxtwin_" in sg for sg in segs[:-1]):
+                continue  # item nested in a twin function (a local const): not an obligation of its own
+            twin = "__vxtwin_" in segs[-1]
             res["functions"].append({"fn": name, "success": f["success"], "time_us": f.get("time-micros"),
                                      "rlimit": f.get("rlimit"), "twin": twin, "mode": f.get("mode:")})
         # errors
@@ -180,7 +184,7 @@ def run_unit(unit, keep=False, rlimit=None, repo=REPO, extra_verus_args="", rend
                           "possible bit shift", "decreases not satisfied", "recommendation not met",
                           "could not prove termination", "unreachable", "loop invariant", "possible cast",
                           "failed to prove", "cannot show", "rlimit", "Resource limit", "panic", "unwrap",
-                          "constructed value may fail to meet its declared type invariant", "index out of bounds", "unable to prove",
+                          "constructed value may fail to meet its declared type invariant", "index out of bounds", "unable to prove", "fails to satisfy",
                           "possible index", "possible slice", "may be out of bounds", "is not satisfied")
             if any(v in msg for v in verif_msgs):
                 e["kind"] = "verification"
